@@ -33,7 +33,7 @@ EXPLANATION = (
     "variable, a counter running down from len(.)-1 under >= 0, or a guard comparing the index with a length). C16.h: constant propagation "
     "of the step for water_table in {0,1}: no cell of the daily tables receives the constant None (stored as NaN). C16.i: month and day of "
     "a real date are completed to a date only with a leap mock year (own positive example). C16.j: the profile-deepening while loop makes "
-    "progress on every iteration (every path from the body's entry back to the test stores into the thickness column). C16.k: prepare_weather floors the ReferenceET column of the frame it returns at a positive value on every path (biomass accumulation divides by it), and no inplace=True method is applied to a selection of a frame anywhere (no effect under copy-on-write; own positive example). NOT decided: numeric assert "
+    "progress on every iteration (every path from the body's entry back to the test stores into the thickness column). C16.k: prepare_weather floors the ReferenceET column of the frame it returns at a positive value on every path (biomass accumulation divides by it), and no inplace=True method is applied to a selection of a frame anywhere (no effect under copy-on-write; own positive example). C16.l: the curve-number runoff quotient, whose denominator is the rain itself when the retention is 0 (curve number 100), is evaluated only under a strict comparison of the rain with the initial abstraction. NOT decided: numeric assert "
     "failures, non-finite results from run-time values, pandas-internal errors.")
 
 L = frozenset
@@ -653,6 +653,63 @@ def et0_floor(chk, prog):
             chk.ok("C16.k", where, construct, f"lower bound {sorted(v[1] for v in setters.values())[0]} applied on every path")
 
 
+def runoff_quotient(chk, prog):
+    """C16.l (the curve-number quotient is never 0/0): with a curve number of 100 the retention S is 0, so the denominator `rain + k*S` of the runoff
+    formula is the rain itself; the quotient is evaluated only under a *strict* test that the rain exceeds the initial abstraction
+    (`term <= 0` False with term = rain - a*S, or `rain > a*S` True) - a non-strict test (`rain < a*S` False) lets a rainless day through
+    and raises ZeroDivisionError (weather values are Python floats)."""
+    rp = prog.find_func("rainfall_partition")
+    chk.fn(rp.key)
+    where = f"{rp.module}:{rp.qualname}"
+    flow = flow_of(rp)
+    cfg = flow.cfg
+    rain = rp.params[0]
+    n = 0
+    def mentions_rain(e, at, depth=0):
+        for x in ast.walk(e):
+            if isinstance(x, ast.Name):
+                if x.id == rain:
+                    return True
+                if depth < 3:
+                    for d in flow.defs_reaching(x.id, at):
+                        a = cfg.nodes[d].ast if d != ENTRY else None
+                        if isinstance(a, ast.Assign) and mentions_rain(a.value, d, depth + 1):
+                            return True
+        return False
+    for dv in walk_no_nested(rp.node):
+        if not (isinstance(dv, ast.BinOp) and isinstance(dv.op, ast.Div) and any(isinstance(x, ast.Name) and x.id == rain for x in ast.walk(dv.right))):
+            continue
+        nid = flow.node_of(dv)
+        if nid is None:
+            continue
+        n += 1
+        construct = norm(dv)[:90]
+        strict, weak = [], []
+        for t, l in cfg.transitive_control_deps(nid):
+            c = cfg.nodes[t].ast
+            if cfg.nodes[t].kind != "test" or not (isinstance(c, ast.Compare) and len(c.ops) == 1):
+                continue
+            lft, rgt, op = c.left, c.comparators[0], c.ops[0]
+            if mentions_rain(lft, t) and not mentions_rain(rgt, t):
+                pass
+            elif mentions_rain(rgt, t) and not mentions_rain(lft, t):
+                op = {ast.Lt: ast.Gt(), ast.LtE: ast.GtE(), ast.Gt: ast.Lt(), ast.GtE: ast.LtE()}.get(type(op), op)
+            else:
+                continue
+            # now: <rain-side> op <other>
+            if (isinstance(op, ast.Gt) and l is True) or (isinstance(op, ast.LtE) and l is False):
+                strict.append(norm(c))
+            elif (isinstance(op, ast.GtE) and l is True) or (isinstance(op, ast.Lt) and l is False):
+                weak.append(norm(c))
+        if strict:
+            chk.ok("C16.l", where, construct, f"evaluated only where the rain strictly exceeds the abstraction ({strict[0]})")
+        else:
+            chk.violation("C16.l", where, construct, "the runoff quotient is not protected by a strict comparison of the rain with the initial abstraction"
+                          + (f" (only `{weak[0]}`, which admits equality)" if weak else "") + ": with a curve number of 100 (S = 0) a rainless day evaluates 0.0 / 0.0 - "
+                          "ZeroDivisionError", loc=rp.loc(dv))
+    chk.floor("C16.l", n, 1, "quotients over the rain in rainfall_partition")
+
+
 def deepening_progress(chk, prog):
     """C16.j (initialisation terminates): a `while` loop below _initialize whose test reads a quantity of the Soil object (zSoil) makes
     progress on every iteration: every path from the loop body's entry back to the loop test passes a store into the profile's
@@ -696,4 +753,5 @@ def run(chk, prog, tier):
     mock_years(chk, prog)
     deepening_progress(chk, prog)
     et0_floor(chk, prog)
+    runoff_quotient(chk, prog)
     chk.exhaustive = True
